@@ -19,6 +19,10 @@
 //!                            reply `(common "q")|(entity "q")|(builtin "Long")|(undefined)|(shadow)`
 //!     — observed end-to-end: a synthetic JSON schema with the same declared names (each common type a record with
 //!       one marker attribute) and a probe attribute of the reference under test, loaded by `ValidatorSchema`.
+//!   `(sty collect-frag (toks …))`  reply `(ok <frag in BTreeMap order>)|(err dup-decl|dup-ns|syntax)` — `from_cedarschema_str`, first error class
+//!   `(sty to-cedar-checked <frag> (nonrec "q"…))`  reply `(toks …)|(err collision|nonrecord)` — `Fragment::to_cedarschema()`
+//!   `(sty print-frag-a <afrag>)` reply `(toks …)`; `(sty parse-frag-a (toks …))` reply `(ok (items …))|(err)` — annotations on namespaces
+//!     and declarations (`to_cedarschema` after stripping attribute annotations; the real grammar `parse_schema`)
 use crate::gen_schema as gs;
 use crate::gen_schema_text as gt;
 use crate::out::Out;
@@ -1029,6 +1033,12 @@ fn mutate_text(r: &mut Rng, text: &str) -> String {
 /// parse result), otherwise in `BTreeMap` iteration order (what the printer walks).  `None`: outside the model's data
 /// (additional attributes, an entity shape that is not a record).
 fn frag_sx(f: &Fragment<RawName>, sorted: bool) -> Option<String> {
+    frag_sx_nonrec(f, sorted, &mut None)
+}
+
+/// as `frag_sx`; with `nonrec = Some(_)` an entity type whose shape is not a record literal is encoded with the empty record and its
+/// fully qualified name is pushed (in the order fmt.rs meets them: namespace order, entity-type key order)
+fn frag_sx_nonrec(f: &Fragment<RawName>, sorted: bool, nonrec: &mut Option<Vec<String>>) -> Option<String> {
     fn join(mut v: Vec<String>, sorted: bool) -> String {
         if sorted {
             v.sort();
@@ -1049,9 +1059,15 @@ fn frag_sx(f: &Fragment<RawName>, sorted: bool) -> Option<String> {
                     format!("(enum{})", choices.iter().map(|c| { let s: &str = c.as_ref(); format!(" {}", qs(s)) }).collect::<String>())
                 }
                 json_schema::EntityTypeKind::Standard(st) => {
-                    let shape = strip_annotations(&st.shape.0);
+                    let mut shape = strip_annotations(&st.shape.0);
                     if !matches!(shape, json_schema::Type::Type { ty: json_schema::TypeVariant::Record(_), .. }) {
-                        return None;
+                        match nonrec {
+                            Some(v) => {
+                                v.push(match name { None => n.to_string(), Some(ns) => format!("{ns}::{n}") });
+                                shape = json_schema::Type::Type { ty: json_schema::TypeVariant::Record(json_schema::RecordType { attributes: BTreeMap::new(), additional_attributes: false }), loc: None };
+                            }
+                            None => return None,
+                        }
                     }
                     let tags = match &st.tags {
                         None => "(notags)".to_string(),
@@ -1098,6 +1114,7 @@ fn emit_frag_print(out: &mut Out, case: &str, f: &Fragment<RawName>) -> Option<S
 
 /// `(sty parse-frag …)`: the real schema parser + to_json_schema.rs on a whole text against the model's parser
 fn emit_frag_parse(out: &mut Out, case: &str, text: &str) {
+    emit_frag_collect(out, case, text);
     let Some(toks) = lex(text) else { return };
     let annotated = toks.iter().any(|t| t == "at");
     let toks = drop_annotations(toks);
@@ -1133,6 +1150,489 @@ fn emit_frag_parse(out: &mut Out, case: &str, text: &str) {
     out.line(format!("(sty parse-frag (toks {}))", toks.join(" ")).replace("(toks )", "(toks)"), imp, format!("{case} parse-frag {text:?}"));
 }
 
+// ------------------------------------------------------------------------------------------------
+// `(sty collect-frag …)`: the BTreeMap collection of to_json_schema.rs with its duplicate detection
+// ------------------------------------------------------------------------------------------------
+
+/// class of the FIRST error of `Fragment::from_cedarschema_str`: `CedarSchemaError::Parsing(CedarSchemaParseError)` whose
+/// `errors()` is `CedarSchemaParseErrors::SyntaxError(_)` (→ syntax) or `CedarSchemaParseErrors::JsonError(ToJsonSchemaErrors)`,
+/// first element `ToJsonSchemaError::DuplicateDeclarations(_)` (→ dup-decl) / `ToJsonSchemaError::DuplicateNamespaces(_)`
+/// (→ dup-ns) / anything else (→ syntax).  Second component: the list also holds a `ToJsonSchemaError::ReservedName`.
+fn collect_err_class(e: &cedar_policy_core::validator::CedarSchemaError) -> (&'static str, bool) {
+    use cedar_policy_core::validator::cedar_schema::parser::CedarSchemaParseErrors as PE;
+    use cedar_policy_core::validator::CedarSchemaError as CE;
+    match e {
+        CE::Parsing(pe) => match pe.errors() {
+            PE::JsonError(errs) => {
+                let vs: Vec<String> = errs.iter().map(|x| variant_of(&format!("{x:?}"))).collect();
+                let reserved = vs.iter().any(|v| v == "ReservedName");
+                match vs.first().map(|x| x.as_str()) {
+                    Some("DuplicateDeclarations") => ("dup-decl", reserved),
+                    Some("DuplicateNamespaces") => ("dup-ns", reserved),
+                    _ => ("syntax", reserved),
+                }
+            }
+            _ => ("syntax", false),
+        },
+        _ => ("syntax", false),
+    }
+}
+
+/// does some SINGLE declaration (or namespace header) of the text fail to convert on its own?  (the real grammar, then the real
+/// `cedar_schema_to_json_schema` on one-declaration schemas; a duplicate inside one multi-name declaration does not count)
+fn has_conversion_error(text: &str) -> bool {
+    use cedar_policy_core::validator::cedar_schema::{parser::parse_schema, to_json_schema::cedar_schema_to_json_schema};
+    let Ok(Ok(schema)) = guard(|| parse_schema(text)) else { return false };
+    let bad = |one| match guard(|| cedar_schema_to_json_schema(one, ext()).map(|x| x.0)) {
+        Ok(Ok(_)) => false,
+        Ok(Err(errs)) => errs.iter().any(|x| !variant_of(&format!("{x:?}")).starts_with("Duplicate") || variant_of(&format!("{x:?}")) == "DuplicateContext" || variant_of(&format!("{x:?}")) == "DuplicatePrincipalOrResource"),
+        Err(_) => true,
+    };
+    for ns in &schema {
+        let mut hdr = ns.clone();
+        hdr.data.decls = vec![];
+        if bad(vec![hdr]) {
+            return true;
+        }
+        for d in &ns.data.decls {
+            let mut one = ns.clone();
+            one.data.decls = vec![d.clone()];
+            if bad(vec![one]) {
+                return true;
+            }
+        }
+    }
+    false
+}
+
+/// `(sty collect-frag (toks …))`: reply `(ok <frag in BTreeMap iteration order>)` | `(err dup-decl|dup-ns|syntax)`
+fn emit_frag_collect(out: &mut Out, case: &str, text: &str) {
+    let Some(toks) = lex(text) else { return };
+    let annotated = toks.iter().any(|t| t == "at");
+    let toks = drop_annotations(toks);
+    if toks.iter().any(|t| t == "at" || t == "lp" || t == "rp") {
+        return;
+    }
+    let imp = match guard(|| Fragment::<RawName>::from_cedarschema_str(text, ext()).map(|x| x.0)) {
+        Ok(Ok(f)) => match frag_sx(&f, false) {
+            Some(s) => format!("(ok {s})"),
+            None => return,
+        },
+        Ok(Err(e)) => {
+            let (class, reserved) = collect_err_class(&e);
+            if class == "syntax" && annotated {
+                // annotations are erased for the model: the rejection may be about them
+                out.count("model:collect-frag:skipped-annotated-rejected");
+                return;
+            }
+            if class != "syntax" && (reserved || has_conversion_error(text)) {
+                // Rust looks for duplicates BEFORE converting the declarations, the model converts first (SchemaCollect.lean header)
+                out.count("model:collect-frag:skipped-duplicate-and-conversion-error");
+                return;
+            }
+            format!("(err {class})")
+        }
+        Err(_) => {
+            out.propfail("schema parser panicked", case, text);
+            return;
+        }
+    };
+    out.nontrivial(&format!("collect-frag|{}", toks.join(" ")));
+    out.count(&format!("model:collect-frag:{}", if imp.starts_with("(ok") { "ok" } else { &imp[5..imp.len() - 1] }));
+    out.line(format!("(sty collect-frag (toks {}))", toks.join(" ")).replace("(toks )", "(toks)"), imp, format!("{case} collect-frag {text:?}"));
+}
+
+/// the top-level structure of a schema text: the declarations (start, end, inside a namespace block?) and the namespace blocks
+fn decl_spans(text: &str) -> (Vec<(usize, usize, bool)>, Vec<(usize, usize)>) {
+    let b = text.as_bytes();
+    let (mut decls, mut nss) = (Vec::new(), Vec::new());
+    let (mut i, mut depth, mut start) = (0usize, 0usize, 0usize);
+    let mut ns_start: Option<usize> = None;
+    let mut in_ns = false;
+    while i < b.len() {
+        match b[i] {
+            b'"' => {
+                i += 1;
+                while i < b.len() && b[i] != b'"' {
+                    i += if b[i] == b'\\' { 2 } else { 1 };
+                }
+            }
+            b'/' if b.get(i + 1) == Some(&b'/') => {
+                while i < b.len() && b[i] != b'\n' {
+                    i += 1;
+                }
+            }
+            b'n' if depth == 0 && !in_ns && text[i..].starts_with("namespace") && (i == 0 || !(b[i - 1].is_ascii_alphanumeric() || b[i - 1] == b'_'))
+                && !b.get(i + 9).map_or(false, |c| c.is_ascii_alphanumeric() || *c == b'_') && text[start..i].trim().chars().all(|c| c != ';') =>
+            {
+                // annotations before `namespace` belong to the block
+                ns_start = Some(start);
+                i += 8;
+            }
+            b'{' => {
+                if depth == 0 && ns_start.is_some() && !in_ns {
+                    in_ns = true;
+                    start = i + 1;
+                }
+                depth += 1;
+            }
+            b'}' => {
+                depth = depth.saturating_sub(1);
+                if depth == 0 && in_ns {
+                    if let Some(s) = ns_start.take() {
+                        nss.push((s, i + 1));
+                    }
+                    in_ns = false;
+                    start = i + 1;
+                }
+            }
+            b';' if depth == (if in_ns { 1 } else { 0 }) => {
+                decls.push((start, i + 1, in_ns));
+                start = i + 1;
+            }
+            _ => {}
+        }
+        i += 1;
+    }
+    (decls, nss)
+}
+
+/// texts with a repeated declaration (in the same namespace), a repeated namespace block, or both
+fn dup_texts(r: &mut Rng, text: &str) -> Vec<(&'static str, String)> {
+    let (decls, nss) = decl_spans(text);
+    let mut res = Vec::new();
+    let dup_decl = |r: &mut Rng, t: &str| -> Option<String> {
+        let (decls, _) = decl_spans(t);
+        if decls.is_empty() {
+            return None;
+        }
+        let (s, e, in_ns) = *r.pick(&decls);
+        // a bare declaration may be repeated anywhere at top level (all bare declarations form ONE namespace)
+        if !in_ns && r.chance(50) {
+            Some(format!("{t} {}", &t[s..e]))
+        } else {
+            Some(format!("{}{} {}{}", &t[..e], "", &t[s..e], &t[e..]))
+        }
+    };
+    if !decls.is_empty() {
+        if let Some(t) = dup_decl(r, text) {
+            res.push(("dup-decl", t));
+        }
+    }
+    if !nss.is_empty() {
+        let (s, e) = *r.pick(&nss);
+        let t = if r.chance(50) { format!("{text} {}", &text[s..e]) } else { format!("{} {text}", &text[s..e]) };
+        if let Some(t2) = dup_decl(r, &t) {
+            res.push(("dup-both", t2));
+        }
+        res.push(("dup-ns", t));
+    }
+    res
+}
+
+fn emit_dup_lines(out: &mut Out, r: &mut Rng, case: &str, text: &str) {
+    for (kind, t) in dup_texts(r, text) {
+        out.count(&format!("dup_family:{kind}"));
+        emit_frag_collect(out, &format!("{case} {kind}"), &t);
+        if r.chance(30) {
+            emit_frag_collect(out, &format!("{case} {kind} mutated"), &mutate_decl_text(r, &t));
+        }
+    }
+}
+
+// ------------------------------------------------------------------------------------------------
+// `(sty to-cedar-checked …)`: the refusals of fmt.rs `json_schema_to_cedar_schema_str`
+// ------------------------------------------------------------------------------------------------
+
+/// the real `Fragment::to_cedarschema()`: `Ok(text)` → `(toks …)`; `Err(ToCedarSchemaSyntaxError::NameCollisions(_))` → `(err collision)`;
+/// `Err(ToCedarSchemaSyntaxError::UnconvertibleEntityTypeShape(_))` → `(err nonrecord)`
+fn emit_to_cedar_checked(out: &mut Out, case: &str, f: &Fragment<RawName>) {
+    use cedar_policy_core::validator::cedar_schema::fmt::ToCedarSchemaSyntaxError as E;
+    let mut nonrec = Some(Vec::new());
+    let Some(sx) = frag_sx_nonrec(f, false, &mut nonrec) else { return };
+    let nonrec = nonrec.unwrap_or_default();
+    let imp = match guard(|| f.to_cedarschema()) {
+        Ok(Ok(text)) => {
+            let Some(toks) = lex(&text) else {
+                out.propfail("printer output is not lexable", case, &text);
+                return;
+            };
+            format!("(toks {})", drop_annotations(toks).join(" ")).replace("(toks )", "(toks)")
+        }
+        Ok(Err(E::NameCollisions(_))) => "(err collision)".to_string(),
+        Ok(Err(E::UnconvertibleEntityTypeShape(_))) => "(err nonrecord)".to_string(),
+        Err(_) => {
+            out.propfail("to_cedarschema panicked", case, &sx);
+            return;
+        }
+    };
+    let req = format!("(sty to-cedar-checked {sx} (nonrec{}))", nonrec.iter().map(|n| format!(" {}", qs(n))).collect::<String>());
+    out.nontrivial(&format!("to-cedar-checked|{req}"));
+    out.count(&format!("model:to-cedar-checked:{}", if imp.starts_with("(toks") { "ok" } else { &imp[5..imp.len() - 1] }));
+    out.line(req, imp, format!("{case} to-cedar-checked"));
+}
+
+/// JSON fragments with an entity type and a common type of the same name (in a named / in the empty namespace; the name also
+/// referenced through `Set<…>` and a record) and with entity shapes that are not record literals
+fn clash_jsons(r: &mut Rng, j: &J) -> Vec<(&'static str, J)> {
+    fn ns_mut<'a>(j: &'a mut J, ns: &str) -> &'a mut Map<String, J> {
+        let m = j.as_object_mut().unwrap();
+        let e = m.entry(ns.to_string()).or_insert_with(|| json!({"entityTypes": {}, "actions": {}}));
+        e.as_object_mut().unwrap()
+    }
+    fn add_clash(r: &mut Rng, j: &mut J, ns: &str) {
+        let d = ns_mut(j, ns);
+        let ents: Vec<String> = d.get("entityTypes").and_then(|e| e.as_object()).map(|e| e.keys().cloned().collect()).unwrap_or_default();
+        let name = if ents.is_empty() || r.chance(20) { "Clash".to_string() } else { r.pick(&ents).clone() };
+        if let Some(e) = d.get_mut("entityTypes").and_then(|e| e.as_object_mut()) {
+            e.entry(name.clone()).or_insert_with(|| json!({}));
+        }
+        let cs = d.entry("commonTypes".to_string()).or_insert_with(|| json!({}));
+        if let Some(cs) = cs.as_object_mut() {
+            cs.insert(name.clone(), json!({"type": "Long"}));
+            match r.below(4) {
+                0 => { cs.insert("ClashRefSet".into(), json!({"type": "Set", "element": {"type": "EntityOrCommon", "name": name}})); }
+                1 => { cs.insert("ClashRefRec".into(), json!({"type": "Record", "attributes": {"a": {"type": "Entity", "name": name}, "b": {"type": "Set", "element": {"type": name}}}})); }
+                2 => {
+                    if let Some(e) = d.get_mut("entityTypes").and_then(|e| e.as_object_mut()) {
+                        e.insert("ClashUser".into(), json!({"shape": {"type": "Record", "attributes": {"a": {"type": "Set", "element": {"type": "Entity", "name": name}}}}}));
+                    }
+                }
+                _ => {}
+            }
+        }
+    }
+    fn add_nonrec(r: &mut Rng, j: &mut J, ns: &str) {
+        let d = ns_mut(j, ns);
+        let shapes = [
+            json!({"type": "Long"}), json!({"type": "String"}), json!({"type": "Set", "element": {"type": "Long"}}),
+            json!({"type": "EntityOrCommon", "name": "NonRecShape"}), json!({"type": "NonRecShape"}), json!({"type": "Extension", "name": "ipaddr"}),
+        ];
+        let shape = r.pick(&shapes).clone();
+        let cs = d.entry("commonTypes".to_string()).or_insert_with(|| json!({}));
+        if let Some(cs) = cs.as_object_mut() {
+            cs.insert("NonRecShape".into(), json!({"type": "Record", "attributes": {"x": {"type": "Long"}}}));
+        }
+        if let Some(e) = d.get_mut("entityTypes").and_then(|e| e.as_object_mut()) {
+            let std: Vec<String> = e.iter().filter(|(_, v)| v.get("enum").is_none()).map(|(k, _)| k.clone()).collect();
+            let name = if std.is_empty() || r.chance(20) { "NonRec".to_string() } else { r.pick(&std).clone() };
+            let ent = e.entry(name).or_insert_with(|| json!({}));
+            if let Some(ent) = ent.as_object_mut() {
+                ent.insert("shape".into(), shape);
+            }
+        }
+    }
+    let Some(m) = j.as_object() else { return vec![] };
+    let named: Vec<String> = m.keys().filter(|k| !k.is_empty()).cloned().collect();
+    let a_named = |r: &mut Rng| if named.is_empty() || r.chance(15) { "Clash::N".to_string() } else { r.pick(&named).clone() };
+    let any_ns = |r: &mut Rng| if r.chance(40) { String::new() } else { a_named(r) };
+    let mut res = Vec::new();
+    let mut a = j.clone();
+    let ns = a_named(r);
+    add_clash(r, &mut a, &ns);
+    res.push(("clash-named", a));
+    let mut b = j.clone();
+    add_clash(r, &mut b, "");
+    res.push(("clash-empty", b));
+    let mut c = j.clone();
+    let ns = any_ns(r);
+    add_nonrec(r, &mut c, &ns);
+    res.push(("nonrecord", c));
+    let mut d = j.clone();
+    let ns = a_named(r);
+    add_clash(r, &mut d, &ns);
+    let ns = any_ns(r);
+    add_nonrec(r, &mut d, &ns);
+    res.push(("clash-and-nonrecord", d));
+    res
+}
+
+fn emit_clash_lines(out: &mut Out, r: &mut Rng, case: &str, j: &J) {
+    for (kind, cj) in clash_jsons(r, j) {
+        match guard(|| Fragment::<RawName>::from_json_value(cj.clone())) {
+            Ok(Ok(f)) => {
+                out.count(&format!("clash_family:{kind}"));
+                emit_to_cedar_checked(out, &format!("{case} {kind} json={cj}"), &f);
+            }
+            _ => out.count(&format!("clash_family:{kind}:json-rejected")),
+        }
+    }
+}
+
+// ------------------------------------------------------------------------------------------------
+// `(sty print-frag-a …)` / `(sty parse-frag-a …)`: annotations on namespaces and declarations
+// ------------------------------------------------------------------------------------------------
+
+fn anns_sx(a: &cedar_policy_core::est::Annotations) -> String {
+    format!("(anns{})", a.0.iter().map(|(k, v)| format!(" ({} {})", qs(&k.to_string()), match v { Some(v) => qs(v.val.as_str()), None => "none".to_string() })).collect::<String>())
+}
+
+/// the fragment without the annotations on record ATTRIBUTES (outside the model); second component: were there any?
+fn strip_attr_annotations(f: &Fragment<RawName>) -> (Fragment<RawName>, bool) {
+    let mut g = f.clone();
+    let mut any = false;
+    let mut fix = |t: &mut json_schema::Type<RawName>| {
+        let s = strip_annotations(t);
+        if format!("{s:?}") != format!("{t:?}") {
+            any = true;
+        }
+        *t = s;
+    };
+    for ns in g.0.values_mut() {
+        for c in ns.common_types.values_mut() {
+            fix(&mut c.ty);
+        }
+        for e in ns.entity_types.values_mut() {
+            if let json_schema::EntityTypeKind::Standard(st) = &mut e.kind {
+                fix(&mut st.shape.0);
+                if let Some(t) = &mut st.tags {
+                    fix(t);
+                }
+            }
+        }
+        for a in ns.actions.values_mut() {
+            if let Some(ap) = &mut a.applies_to {
+                fix(&mut ap.context.0);
+            }
+        }
+    }
+    (g, any)
+}
+
+/// `(afrag (ns "N" <anns> (commons ("n" <anns> ty)…) (entities …) (actions …))…)` in `BTreeMap` order
+fn afrag_sx(f: &Fragment<RawName>) -> Option<String> {
+    let plain = frag_sx(f, false)?; // inside the model's data at all?
+    let _ = plain;
+    let mut nss = Vec::new();
+    for (name, ns) in f.0.iter() {
+        let one = Fragment(BTreeMap::from([(name.clone(), ns.clone())]));
+        let _ = one;
+        let mut commons = String::new();
+        for (n, c) in &ns.common_types {
+            commons += &format!(" ({} {} {})", qs(&n.to_string()), anns_sx(&c.annotations), ty_sx(&c.ty)?);
+        }
+        let mut ents = String::new();
+        for (n, e) in &ns.entity_types {
+            // the entry body as `frag_sx` encodes it
+            let mut m = ns.clone();
+            m.common_types.clear();
+            m.actions.clear();
+            m.entity_types.retain(|k, _| k == n);
+            let enc = frag_sx(&Fragment(BTreeMap::from([(name.clone(), m)])), false)?;
+            let key = format!("(entities ({} ", qs(&n.to_string()));
+            let st = enc.find(&key)? + key.len();
+            let en = enc.rfind(")) (actions")?;
+            ents += &format!(" ({} {} {})", qs(&n.to_string()), anns_sx(&e.annotations), &enc[st..en]);
+        }
+        let mut acts = String::new();
+        for (n, a) in &ns.actions {
+            let mut m = ns.clone();
+            m.common_types.clear();
+            m.entity_types.clear();
+            m.actions.retain(|k, _| k == n);
+            let enc = frag_sx(&Fragment(BTreeMap::from([(name.clone(), m)])), false)?;
+            let key = format!("(actions ({} ", qs(n));
+            let st = enc.find(&key)? + key.len();
+            let en = enc.len() - 4; // entry, `(actions`, `(ns`, `(frag`
+            acts += &format!(" ({} {} {})", qs(n), anns_sx(&a.annotations), &enc[st..en]);
+        }
+        let nm = match name { None => String::new(), Some(n) => n.to_string() };
+        nss.push(format!(" (ns {} {} (commons{commons}) (entities{ents}) (actions{acts}))", qs(&nm), anns_sx(&ns.annotations)));
+    }
+    Some(format!("(afrag{})", nss.concat()))
+}
+
+/// the real `to_cedarschema` on a fragment whose record attributes carry no annotations, annotations kept as tokens
+fn emit_frag_print_a(out: &mut Out, case: &str, f: &Fragment<RawName>) -> Option<String> {
+    let (g, had_attr_anns) = strip_attr_annotations(f);
+    if had_attr_anns {
+        out.count("model:print-frag-a:attribute-annotations-stripped");
+    }
+    let Ok(Ok(text)) = guard(|| g.to_cedarschema()) else { return None };
+    let sx = afrag_sx(&g)?;
+    let Some(toks) = lex(&text) else {
+        out.count("model:print-frag-a:skipped-unlexable");
+        return None;
+    };
+    out.nontrivial(&format!("print-frag-a|{sx}"));
+    out.count(if sx.contains("(anns (") { "model:print-frag-a:annotated" } else { "model:print-frag-a:plain" });
+    out.line(format!("(sty print-frag-a {sx})"), format!("(toks {})", toks.join(" ")).replace("(toks )", "(toks)"), format!("{case} print-frag-a {text:?}"));
+    Some(text)
+}
+
+/// the real grammar (`cedar_schema::parser::parse_schema`, which runs `deduplicate_annotations`) on a text: the items in source
+/// order with their annotation maps (`ast::Annotations`: key order, an absent value is "") and the kind of every declaration
+fn emit_frag_parse_a(out: &mut Out, case: &str, text: &str) {
+    use cedar_policy_core::validator::cedar_schema::parser::parse_schema;
+    let Some(toks) = lex(text) else { return };
+    let a_sx = |a: &ast::Annotations| format!("(anns{})", a.iter().map(|(k, v)| format!(" ({} {})", qs(&k.to_string()), qs(v.val.as_str()))).collect::<String>());
+    let imp = match guard(|| parse_schema(text)) {
+        Ok(Ok(schema)) => {
+            if has_conversion_error(text) {
+                // reserved names are refused by the model's PARSER, by Rust in the conversion
+                out.count("model:parse-frag-a:skipped-conversion-error");
+                return;
+            }
+            let mut items = String::new();
+            for ns in &schema {
+                let kind = |d: &str| match variant_of(d).as_str() { "Entity" => "entity", "Action" => "action", _ => "type" };
+                match &ns.data.name {
+                    Some(p) => {
+                        items += &format!(" (ns {} {}", qs(&p.to_string()), a_sx(&ns.annotations));
+                        for d in &ns.data.decls {
+                            items += &format!(" ({} {})", kind(&format!("{:?}", d.data.node)), a_sx(&d.annotations));
+                        }
+                        items += ")";
+                    }
+                    None => {
+                        for d in &ns.data.decls {
+                            items += &format!(" (decl {} {})", kind(&format!("{:?}", d.data.node)), a_sx(&d.annotations));
+                        }
+                    }
+                }
+            }
+            format!("(ok (items{items}))")
+        }
+        Ok(Err(_)) => "(err)".to_string(),
+        Err(_) => {
+            out.propfail("schema parser panicked", case, text);
+            return;
+        }
+    };
+    out.nontrivial(&format!("parse-frag-a|{}", toks.join(" ")));
+    out.count(if imp == "(err)" { "model:parse-frag-a:err" } else if imp.contains("(anns (") { "model:parse-frag-a:ok-annotated" } else { "model:parse-frag-a:ok-plain" });
+    out.line(format!("(sty parse-frag-a (toks {}))", toks.join(" ")).replace("(toks )", "(toks)"), imp, format!("{case} parse-frag-a {text:?}"));
+}
+
+/// repeat one `@key…` line (→ `DuplicateAnnotations`) or drop the value of one
+fn mutate_ann_text(r: &mut Rng, text: &str) -> String {
+    let lines: Vec<&str> = text.lines().collect();
+    let idx: Vec<usize> = lines.iter().enumerate().filter(|(_, l)| l.trim_start().starts_with('@')).map(|x| x.0).collect();
+    if idx.is_empty() {
+        return format!("@doc @doc {text}");
+    }
+    let i = *r.pick(&idx);
+    let mut res: Vec<String> = lines.iter().map(|l| l.to_string()).collect();
+    match r.below(3) {
+        0 => res.insert(i, lines[i].to_string()),
+        1 => res[i] = lines[i].split('(').next().unwrap_or("").to_string(),
+        _ => res[i] = format!("{} @", lines[i]),
+    }
+    res.join("\n")
+}
+
+fn emit_annot_lines(out: &mut Out, r: &mut Rng, case: &str, f: &Fragment<RawName>) {
+    if let Some(printed) = emit_frag_print_a(out, case, f) {
+        emit_frag_parse_a(out, case, &printed);
+        if r.chance(40) {
+            emit_frag_parse_a(out, case, &mutate_ann_text(r, &printed));
+        }
+        if r.chance(20) {
+            emit_frag_parse_a(out, case, &mutate_decl_text(r, &printed));
+        }
+    }
+}
+
 /// single-token mutations at the declaration level
 fn mutate_decl_text(r: &mut Rng, text: &str) -> String {
     let reps: &[(&str, &str)] = &[
@@ -1155,6 +1655,8 @@ fn mutate_decl_text(r: &mut Rng, text: &str) -> String {
 
 /// fragment-level model lines for one fragment (JSON side: printed and re-parsed; Cedar side: the given text and a mutation of it)
 fn emit_frag_lines(out: &mut Out, r: &mut Rng, case: &str, f: &Fragment<RawName>, text: Option<&str>) {
+    emit_to_cedar_checked(out, case, f);
+    emit_annot_lines(out, r, case, f);
     if let Some(printed) = emit_frag_print(out, case, f) {
         emit_frag_parse(out, case, &printed);
         if r.chance(30) {
@@ -1166,6 +1668,9 @@ fn emit_frag_lines(out: &mut Out, r: &mut Rng, case: &str, f: &Fragment<RawName>
         if r.chance(50) {
             emit_frag_parse(out, case, &mutate_decl_text(r, t));
         }
+        emit_dup_lines(out, r, case, t);
+    } else if let Ok(Ok(printed)) = guard(|| f.to_cedarschema()) {
+        emit_dup_lines(out, r, case, &printed);
     }
 }
 
@@ -1451,6 +1956,7 @@ pub fn run(args: &Args, out: &mut Out) {
                 emit_model_lines(out, &mut r, &cname, &f, &[]);
                 emit_frag_lines(out, &mut r, &cname, &f, None);
             }
+            emit_clash_lines(out, &mut r, &cname, &w.json);
         } else {
             let spec = gt::gen_tspec(&mut r);
             let cname = format!("case={case} sub={sub} text {}", spec.describe());
@@ -1464,6 +1970,7 @@ pub fn run(args: &Args, out: &mut Out) {
                 emit_model_lines(out, &mut r, &cname, &f, &[]);
                 emit_frag_lines(out, &mut r, &cname, &f, None);
             }
+            emit_clash_lines(out, &mut r, &cname, &j);
             if let Ok(Ok((f, _))) = guard(|| Fragment::<RawName>::from_cedarschema_str(&t.text, ext())) {
                 check_annotations(out, &cname, &f);
                 emit_model_lines(out, &mut r, &cname, &f, &t.type_exprs);
